@@ -2,6 +2,7 @@ package task
 
 import (
 	"context"
+	"fmt"
 	"io"
 	"strings"
 
@@ -80,7 +81,7 @@ func ZZ_C14_DeferredCall() {
 	}
 	got := ""
 	if zz.Native() {
-		for _, l := range sink.lines {
+		for _, l := range strings.Split(sink.raw, "\n") {
 			if strings.HasPrefix(l, "got ") {
 				got = "echo " + l
 			}
@@ -92,6 +93,7 @@ func ZZ_C14_DeferredCall() {
 			}
 		}
 	}
+	zz.Note(fmt.Sprintf("deferred call ran %q, expected %q (run: %v)", got, want, err))
 	zz.Assert(got == want, "deferred-task-call-passes-the-deferring-tasks-values-and-EXIT_CODE")
 	if zz.Twin() {
 		zz.Assert(false, "twin")
